@@ -140,6 +140,8 @@ pub fn history(cfg: &Cfg, rep: &mut Report, h: u64, steps: usize, e2e: bool) {
         invoke::<()>(e, &irs, "add_identity", args!(e, accounts[i], identities[i], IdentityType::Individual, countries.clone())).expect("add_identity");
     }
     // which identity contract an account is registered with (edited during the history)
+    // recovery links the registry storage has recorded (old account -> new account)
+    let mut recovered: BTreeMap<usize, usize> = BTreeMap::new();
     let mut ident_of: Vec<Option<usize>> = (0..=nid).map(|i| if i < nid { Some(i) } else { None }).collect();
     let topics_u: [u32; 4] = [1, 2, 3, 4];
     // model
@@ -350,6 +352,7 @@ pub fn history(cfg: &Cfg, rep: &mut Report, h: u64, steps: usize, e2e: bool) {
                     if r.is_ok() {
                         ident_of[a] = None;
                         ident_of[b] = Some(idn);
+                        recovered.insert(a, b);
                     }
                 }
                 (None, _) => {
@@ -540,6 +543,50 @@ pub fn history(cfg: &Cfg, rep: &mut Report, h: u64, steps: usize, e2e: bool) {
                 } else {
                     rep.count("e2e_transfer_refused");
                     rep.check("ref", !both, "C04/ref/real-identity/transfer/refused-although-both-verified", || format!("transfer {a} -> {b} between verified accounts refused at step {step}: {r:?}"));
+                }
+            }
+            // the allowance path is gated on the two parties just the same (the spender is not a party)
+            {
+                let (a, b, sp) = (rng.idx(accounts.len()), rng.idx(accounts.len()), rng.idx(accounts.len()));
+                if a != b && tbal[a] >= 1 {
+                    let _: Result<(), Fail> = invoke(e, tok, "approve", args!(e, accounts[a], accounts[sp], 1i128, e.ledger().sequence() + 100));
+                    let r: Result<(), Fail> = invoke(e, tok, "transfer_from", args!(e, accounts[sp], accounts[a], accounts[b], 1i128));
+                    rep.evaluations += 1;
+                    let both = verdicts[a] && verdicts[b];
+                    rep.op(format!("[{step}] token.transfer_from(spender {sp}, {a} -> {b}, 1) with oracle verified=({}, {}) -> {}", verdicts[a], verdicts[b], tag(&r)));
+                    rep.case(format!("real-identity/transfer_from/from={}/to={}/{}", verdicts[a], verdicts[b], tag(&r)));
+                    if r.is_ok() {
+                        tbal[a] -= 1;
+                        tbal[b] += 1;
+                        rep.check("gate", both, "C04/gate/real-identity/transfer_from/passed-with-unverified-party", || format!("transfer_from {a} -> {b} (spender {sp}) passed at step {step} with verified=({}, {})", verdicts[a], verdicts[b]));
+                    } else {
+                        rep.check("ref", !both, "C04/ref/real-identity/transfer_from/refused-although-both-verified", || format!("transfer_from {a} -> {b} between verified accounts refused at step {step}: {r:?}"));
+                    }
+                }
+            }
+            // recovery: the whole balance moves to the target registered in the identity registry storage,
+            // and to nobody else; the target must be verified
+            {
+                let (x, y) = if !recovered.is_empty() && rng.chance(2, 3) { let ks: Vec<(&usize, &usize)> = recovered.iter().collect(); let p = *rng.pick(&ks); (*p.0, *p.1) } else { (rng.idx(accounts.len()), rng.idx(accounts.len())) };
+                let r: Result<bool, Fail> = invoke(e, tok, "recover_balance", args!(e, accounts[x], accounts[y]));
+                rep.evaluations += 1;
+                let linked = recovered.get(&x) == Some(&y);
+                let want = linked && verdicts[y];
+                rep.op(format!("[{step}] token.recover_balance({x} -> {y}) registered target: {:?}, target verified: {} -> {}", recovered.get(&x), verdicts[y], tag(&r)));
+                rep.case(format!("real-identity/recover_balance/linked={linked}/target-verified={}/{}", verdicts[y], tag(&r)));
+                if r.is_ok() {
+                    rep.check("gate", linked, "C04/gate/real-identity/recover_balance/moved-to-unregistered-target", || format!("recover_balance({x} -> {y}) passed at step {step}; the registry storage links {x} to {:?}", recovered.get(&x)));
+                    rep.check("gate", verdicts[y], "C04/gate/real-identity/recover_balance/target-not-verified", || format!("recover_balance({x} -> {y}) passed although account {y} is not verified"));
+                    if x != y {
+                        tbal[y] += tbal[x];
+                        tbal[x] = 0;
+                    }
+                    rep.count("e2e_recover_ok");
+                }
+                rep.check("ref", r.is_ok() == want, "C04/ref/real-identity/recover_balance/outcome", || format!("recover_balance({x} -> {y}): registered target {:?}, target verified {}: expected ok={want}, got {r:?}", recovered.get(&x), verdicts[y]));
+                for (i, acc) in accounts.iter().enumerate() {
+                    let b: i128 = invoke(e, tok, "balance", args!(e, acc.clone())).must("balance");
+                    rep.check("ref", b == tbal[i], "C04/ref/real-identity/balances", || format!("after step {step}: token balance of account {i} is {b}, movements that passed add up to {}", tbal[i]));
                 }
             }
         }
